@@ -27,7 +27,9 @@ def family(rng, fam):
     if fam == "plain":
         return pickle.dumps(rng.choice([[1, 2, 3], {"a": 1, "b": [2]}, ("x", 1.5), {1, 2}, "s" * 300,
                                         # text whose encoded length differs from its length in characters
-                                        ["caf\u00e9", "\u4e2d\u6587"], {"\U0001f600": "\u00fc" * 200}, "\u20ac" * 300]), rng.choice([2, 3, 4, 5]))
+                                        ["caf\u00e9", "\u4e2d\u6587"], {"\U0001f600": "\u00fc" * 200}, "\u20ac" * 300,
+                                        # objects the framing pickler (protocol 4 / 5) writes OUTSIDE any frame (64 KiB and more)
+                                        "x" * 70000, [1, b"y" * 66000, "tail"]]), rng.choice([2, 3, 4, 5]))
     if fam == "calls":
         return rng.choice([
             assemble([G("verif_sink", "other"), O("MARK"), K("base"), O("TUPLE"), O("REDUCE"), O("STOP")]),
